@@ -398,6 +398,25 @@ class C12(object):
         _, want = drv.call('samplef', [[f2bits(p) for p in lin], [f2bits(u) for u in g.given[:k] + g1.given[:1]]])
         if a + a1 != want:
             r.mismatch = 'rand(prng=object with rand()) indices %s != model %s' % (a + a1, want)
+        # one generator, several successive requests: the model's `randN` on the stream the generator hands out
+        # (Core/Generator.lean; Props/C12More `randN_add`): each request consumes exactly its own count of uniforms
+        if not r.mismatch:
+            sizes = [1 + (seed >> s_) % 4 for s_ in (0, 2, 4)]
+            gs = _Uniforms(seed + 2)
+            stream = [float(v) for v in np.random.RandomState((seed + 2) % (2 ** 32)).rand(sum(sizes) + 3)]
+            try:
+                got = [idx(d.rand(size=n_, prng=gs)) for n_ in sizes]
+            except Exception as e:  # noqa
+                r.oracle_fail = 'successive rand(size=n, prng=g) raised %s: %s' % (type(e).__name__, e)
+                return
+            want_seq, left = drv.call('randn', [[f2bits(p) for p in lin], [f2bits(u) for u in stream], sizes])
+            r.features.append('generator-stream-model')
+            if gs.given != stream[:len(gs.given)] or len(stream) - len(gs.given) != left:
+                r.oracle_fail = ('successive rand(size=%s, prng=g) asked the generator for %d uniforms; each request is to '
+                                 'consume exactly its own count (%d in all)' % (sizes, len(gs.given), sum(sizes)))
+                return
+            if got != want_seq:
+                r.mismatch = 'successive rand(size=%s, prng=g): indices %s != model randN %s' % (sizes, got, want_seq)
         for label, bad in (('numpy.random.Generator', np.random.default_rng(seed)), ('object()', object())):
             try:
                 got = d.rand(size=k, prng=bad)
